@@ -298,7 +298,7 @@ class SeekingReader(McapReader):
             # use a non-seeking reader to read linearly through the stream.
             self._stream.seek(0, io.SEEK_SET)
             yield from NonSeekingReader(self._stream).iter_messages(
-                topics, start_time, end_time, log_time_order
+                topics, start_time, end_time, log_time_order, reverse
             )
             return
 
